@@ -222,4 +222,121 @@ theorem soundT_ite (ρ : QV.Env) (env : Front.Env) (σ : TEnv) (c l r : PExp)
           · rw [flattenList_atoms, evalBits_zipWith_ite ρ cb as bs hl, hba, hbb]
             cases cb.eval ρ <;> simp
 
+
+/-! ### lists of operands: `and` / `or`, tuple literals -/
+
+/-- element-wise denotation of a list of translated values -/
+def DenListT (ρ : QV.Env) : List (Ty × Val) → List TVal → Prop
+  | [], [] => True
+  | x :: xs, sv :: svs => DenT ρ x.1 x.2 sv ∧ DenListT ρ xs svs
+  | _, _ => False
+
+theorem soundT_list (ρ : QV.Env) (env : Front.Env) (σ : TEnv) (es : List PExp)
+    (ih : ∀ e ∈ es, SoundT ρ env σ e) :
+    ∀ (s : St) (xs : List (Ty × Val)) (s' : St), wellTList σ es = true →
+      (trList Quirks.none env es).run s = .ok (xs, s') →
+      ∃ svs, semTList σ es = some svs ∧ DenListT ρ xs svs := by
+  induction es with
+  | nil =>
+    intro s xs s' _ h
+    rw [trList, run_pure_ok] at h
+    obtain ⟨rfl, _⟩ := h
+    exact ⟨[], by simp [semTList], trivial⟩
+  | cons e es ihes =>
+    intro s xs s' hw h
+    rw [trList] at h
+    simp only [run_bind_ok, run_pure_ok] at h
+    obtain ⟨⟨t1, v1⟩, s1, h1, xs', s2, h2, rfl, _⟩ := h
+    simp only [wellTList, Bool.and_eq_true] at hw
+    obtain ⟨sv, hs, hd⟩ := ih e (by simp) _ _ _ _ hw.1 h1
+    obtain ⟨svs, hss, hds⟩ := ihes (fun e' he' => ih e' (by simp [he'])) _ _ _ hw.2 h2
+    exact ⟨sv :: svs, by simp [semTList, hs, hss], hd, hds⟩
+
+theorem boolFoldT_spec (ρ : QV.Env) (isAnd : Bool) (as : List BExp) :
+    ∀ (xs : List (Ty × Val)) (svs : List TVal), DenListT ρ xs svs →
+      xs.map (·.2) = as.map Val.atom → as ≠ [] →
+      boolFoldT isAnd svs = some ((unfoldBool isAnd as).eval ρ) := by
+  induction as with
+  | nil => intro _ _ _ _ h; exact absurd rfl h
+  | cons a as ih =>
+    intro xs svs hd hm _
+    cases xs with
+    | nil => simp at hm
+    | cons x xs =>
+      cases svs with
+      | nil => exact absurd hd (by simp [DenListT])
+      | cons sv svs =>
+        obtain ⟨hd1, hd2⟩ := hd
+        simp only [List.map_cons, List.cons.injEq] at hm
+        obtain ⟨hx, hm'⟩ := hm
+        obtain ⟨t1, v1⟩ := x
+        simp only at hx hd1
+        subst hx
+        cases hd1
+        cases as with
+        | nil =>
+          cases xs with
+          | nil =>
+            cases svs with
+            | nil => simp [boolFoldT, unfoldBool]
+            | cons _ _ => exact absurd hd2 (by simp [DenListT])
+          | cons _ _ => simp at hm'
+        | cons a2 as2 =>
+          have ih' := ih xs svs hd2 hm' (by simp)
+          cases xs with
+          | nil => simp at hm'
+          | cons x2 xs2 =>
+            cases svs with
+            | nil => exact absurd hd2 (by simp [DenListT])
+            | cons sv2 svs2 =>
+              have hb : boolFoldT isAnd (TVal.bool (a.eval ρ) :: sv2 :: svs2)
+                  = (boolFoldT isAnd (sv2 :: svs2)).map
+                      fun r => if isAnd then a.eval ρ && r else a.eval ρ || r := by
+                rw [boolFoldT]
+                · intro h; cases h
+              rw [hb, ih']
+              cases isAnd <;> simp [unfoldBool, BExp.eval, evalAnd, evalOr]
+
+theorem soundT_boolop (ρ : QV.Env) (env : Front.Env) (σ : TEnv) (isAnd : Bool) (vs : List PExp)
+    (ih : ∀ e ∈ vs, SoundT ρ env σ e) : SoundT ρ env σ (.boolop isAnd vs) := by
+  intro s t v s' hw h
+  rw [tr] at h
+  simp only [run_bind_ok] at h
+  obtain ⟨xs, s1, h1, es, s2, h2, _, s3, _, h4⟩ := h
+  obtain ⟨svs, hss, hds⟩ := soundT_list ρ env σ vs ih _ _ _ (by simpa [wellT] using hw) h1
+  obtain ⟨as, h5, h6⟩ := atoms_loop xs [] s1 es s2 h2
+  simp only [List.nil_append] at h6
+  rw [h6] at h4
+  simp only [run_ite_ok, run_bind_ok, run_throw_ok, false_and, exists_false, and_false, false_or,
+    run_pure_ok] at h4
+  obtain ⟨hne, h7, _⟩ := h4
+  cases h7
+  have hne' : as ≠ [] := by
+    intro h0; subst h0; simp at hne
+  have := boolFoldT_spec ρ isAnd as xs svs hds h5 hne'
+  exact ⟨.bool ((unfoldBool isAnd as).eval ρ), by simp [semT, hss, this], DenT.mk_bool _ _ rfl⟩
+
+theorem denListT_tup (ρ : QV.Env) : ∀ (xs : List (Ty × Val)) (svs : List TVal), DenListT ρ xs svs →
+    TVal.tyList svs = xs.map (·.1) ∧ TVal.wfList svs = true ∧
+      evalBits ρ (Val.flattenList (xs.map (·.2))) = TVal.bitsList svs
+  | [], [], _ => ⟨rfl, rfl, rfl⟩
+  | x :: xs, sv :: svs, h => by
+    obtain ⟨h1, h2⟩ := h
+    obtain ⟨i1, i2, i3⟩ := denListT_tup ρ xs svs h2
+    refine ⟨by simp [TVal.tyList, den_ty h1, i1], by simp [TVal.wfList, den_wf h1, i2], ?_⟩
+    simp only [List.map_cons, Val.flattenList, evalBits_append, TVal.bitsList, den_bits h1, i3]
+  | [], _ :: _, h => absurd h (by simp [DenListT])
+  | _ :: _, [], h => absurd h (by simp [DenListT])
+
+theorem soundT_tuple (ρ : QV.Env) (env : Front.Env) (σ : TEnv) (es : List PExp)
+    (ih : ∀ e ∈ es, SoundT ρ env σ e) : SoundT ρ env σ (.tuple es) := by
+  intro s t v s' hw h
+  rw [tr] at h
+  simp only [run_bind_ok, run_pure_ok] at h
+  obtain ⟨xs, s1, h1, h2, _⟩ := h
+  cases h2
+  obtain ⟨svs, hss, hds⟩ := soundT_list ρ env σ es ih _ _ _ (by simpa [wellT] using hw) h1
+  obtain ⟨i1, i2, i3⟩ := denListT_tup ρ xs svs hds
+  exact ⟨.tuple svs, by simp [semT, hss], DenT.mk_tup _ _ _ i1 i2 i3⟩
+
 end QV.Sem
